@@ -39,6 +39,12 @@ UL = "src/scinumtools/units/unit_list.py"
 
 
 # ---------------------------------------------------------------- R1 / R2
+def _unstrip(e):
+    while isinstance(e, ast.Call) and isinstance(e.func, ast.Attribute) and e.func.attr in ("strip", "lstrip", "rstrip") and not e.args and not e.keywords:
+        e = e.func.value
+    return e
+
+
 def r1_atom_parser(ctx):
     fn = ctx.fn(US, "AtomParser")
     p = fn.args.args[0].arg
@@ -196,8 +202,8 @@ def _residual_text(ctx, fn, p):
         want_L = expr_from("T[1:-len(B)]", T=T, B=BASE)
         if same(L, want_L):
             rem.append(("ok", norm(L)))
-        elif isinstance(L, ast.Subscript) and same(L.value, T) and not isinstance(L.slice, ast.Slice):
-            singles.append(norm(L))
+        elif isinstance(_unstrip(L), ast.Subscript) and same(_unstrip(L).value, T) and not isinstance(_unstrip(L).slice, ast.Slice):
+            singles.append(norm(L))           # one character of the text (stripped of blanks or not): longer prefixes are cut down
             rem.append(("index", norm(L)))
         elif isinstance(L, ast.Subscript) and same(L.value, T) and isinstance(L.slice, ast.Slice):
             rem.append(("slice", norm(L)))
@@ -914,6 +920,23 @@ def r8_tables(ctx):
             bad.append((pfx, "prefix row"))
     ctx.check(not bad, SETTINGS, "UNIT_STANDARD", "rows are well-formed (arity, 8 dimensions, admissible prefixes, positive factor)",
               detail=bad[:8] or None)
+    # SI prefixes (BIPM brochure, the `published prefix table`): a row named after an SI prefix carries that prefix's power of ten,
+    # in its factor and in its definition text
+    SI = {"quetta": 30, "ronna": 27, "yotta": 24, "zetta": 21, "exa": 18, "peta": 15, "tera": 12, "giga": 9, "mega": 6, "kilo": 3, "hecto": 2,
+          "deka": 1, "deca": 1, "deci": -1, "centi": -2, "milli": -3, "micro": -6, "nano": -9, "pico": -12, "femto": -15, "atto": -18, "zepto": -21,
+          "yocto": -24, "ronto": -27, "quecto": -30}
+    ni, nsi = (pc.index("name") if "name" in pc else None), 0
+    for pfx, r in prows.items():
+        if ni is None or len(r) <= ni or r[ni] not in SI or not isinstance(r[0], (int, float)):
+            continue
+        nsi += 1
+        want = 10.0 ** SI[r[ni]]
+        what = "an SI prefix carries its power of ten"
+        if abs(r[0] - want) <= 1e-12 * want:
+            ctx.holds(SETTINGS, "UNIT_PREFIXES", what, detail=f"{pfx} ({r[ni]}) = 1e{SI[r[ni]]}")
+        else:
+            ctx.violated(SETTINGS, "UNIT_PREFIXES", what, detail={pfx: {"name": r[ni], "factor": r[0]}}, expected=f"1e{SI[r[ni]]}")
+    ctx.floor("SI prefix rows", nsi, 20)
     # all admissible spellings
     spellings = {}
     pi = cols.index("prefixes")
